@@ -170,6 +170,9 @@ def dropped_samples_keep_the_margin_on_fixed_shapes(h, shape):
     for i in range(left):
         h.ge(f"sample {i} counted as fully left is at distance >= cutoff - w/2", x - srt[i], cutoff - w / 2)
     h.same("some sample is dropped on some path of this shape (non-vacuity is checked over the unit)", True, True)
+    # nothing is remembered between calls, and the caller's sample is left as it was given
+    h.eq("second evaluation at the same point (after a cdf call) gives the same density", K(x), val)
+    h.eq("caller's sample array unchanged (values and order)", s, np.array([b + c * v for v in pat], dtype=dt))
 
 
 @unit("C12", quick=[], thorough=[dict(shape="pair_far", nx=3)], max_paths=20000, cost=9, axioms_in_trunc=True, timeout_ms=40000, thorough_wall_s=3000)
